@@ -17,6 +17,9 @@ import ConjureVerif.Model.Idents
 import ConjureVerif.Model.Wire
 import ConjureVerif.Model.GenOrder
 import ConjureVerif.Model.Emit
+import ConjureVerif.Model.MacroEmit
+import ConjureVerif.Model.TypePath
+import ConjureVerif.Model.Boxing
 /-
 Line-protocol driver.  One operation per input line: `<property> <op> <args…>`; one output line per
 operation.  Imports models only (no Mathlib, no proofs), so it links as a native executable.
@@ -27,6 +30,8 @@ def dispatch (line : String) : String :=
   match line.trimAscii.toString.splitOn " " with
   | [_, "noop"] => "noop"      -- an oracle-only case: nothing for the model to say
   | "C15" :: rest => SafeLong.handle rest
+  | "C07" :: "macro" :: rest => MacroEmit.handle Gen.Uri.componentMacros ("macro" :: rest)
+  | "C04" :: "macro" :: rest => MacroEmit.handle Gen.Uri.componentMacros ("macro" :: rest)
   | "C07" :: "emit" :: rest => Emit.handle Gen.Keywords.escaped ("emit" :: rest)
   | "C07" :: rest => Uri.handle rest
   | "C01" :: rest => WrapIO.handle rest
@@ -36,6 +41,8 @@ def dispatch (line : String) : String :=
   | "C10" :: rest => EnumUnion.handle rest
   | "C14" :: rest => DoubleOps.handle rest
   | "C02" :: rest => Wire.handle rest
+  | "C03" :: "typepath" :: rest => TypePath.handle ("typepath" :: rest)
+  | "C03" :: "boxing" :: rest => Boxing.handle ("boxing" :: rest)
   | "C03" :: rest => Idents.handle rest
   | "C04" :: "emit" :: rest => Emit.handle Gen.Keywords.escaped ("emit" :: rest)
   | "C04" :: rest => Call.handle rest
